@@ -234,6 +234,7 @@ for n in ["send_plan_noatt_enobufs_q", "send_plan_att_enobufs_q", "send_plan_noa
 
 for n in ["modes_timeout_zero", "modes_timeout_1ns", "modes_timeout_sub_ms", "modes_timeout_1ms", "modes_timeout_mixed"]:
     H(n, ["C10"], sym="none: one concrete duration (0, 1 ns, 999999 ns, 1 ms, 2.500000001 s) on an idle connected channel", bounds="unwind 8")
+H("modes_timeout_interrupted", ["C10"], sym="message value symbolic; the timed wait on an idle channel is interrupted by a signal (poll returns EINTR once)", bounds="unwind 8")
 H("modes_timeout_queued_then_hangup", ["C10", "C03"], sym="message bytes symbolic; a timed receive when data and the hang-up are both pending", bounds="unwind 8")
 
 for n in ["send_retry_first_single_att", "send_retry_first_frag_att", "send_retry_first_frag_noatt"]:
@@ -267,6 +268,9 @@ H("c16_drop_undecoded_fd0", ["C16", "C03", "C11"], sym="payload bytes symbolic; 
 HARNESSES["send_many_64_frag"]["props"].append("C02")
 for _h in ["recv_short_20_d", "recv_short_24_e"]:
     HARNESSES[_h]["props"].append("C04")   # a re-fragmented small message: the dedicated channel must not come out as an attachment
+HARNESSES["send_plan_noatt_enobufs_q"]["props"].append("C02")   # a refused fragment must be re-sent, not skipped (order/completeness)
+for _h in ["shm_ipc_3", "send_moves_receiver_frag", "send_moves_receiver_small", "ser_nested_ok"]:
+    HARNESSES[_h]["props"].append("C18")   # odd numbers of descriptors: CMSG_LEN != CMSG_SPACE (control buffer read in full by the model)
 for _h in ["transit_unpacked_fd0_dropped_small"]:
     HARNESSES[_h]["props"].append("C11")   # a received receiving end on descriptor 0 must be closed when dropped   # 65 descriptors on the header packet = follow-ups read from a user channel
 
